@@ -47,7 +47,7 @@ CHECKS = {
     "C16": (
         "interprocedural effect / alias analysis over the resolved call graph (who-may-write shared state)",
         "Program model with 0 unresolved call sites + points-to/effect summaries (depth-limited access paths, summaries instantiated per call site, so writes through `out` parameters are attributed to what the caller passed). Every write whose target may be a module-level object, in a function reachable from the 13 public functions, is classified: verified idempotent key-complete cache fill (3 instances), verified write-only counter (1), or violation with object, statement and call path. Under arbitrary preemption private state cannot be observed by another thread, so absence of other shared writes implies the property. Keyed stores that look like caches but are not verified are UNDECIDED, never alarms. A synthetic positive control (scratch written through an out-parameter helper) must fire on every run.",
-        "Trusted: single bytecode-level reference stores / list.append are atomic under the GIL; no reflection or monkey-patching (checked); callers do not mutate package internals. Flow-insensitive points-to: sound for may-write, may over-approximate aliases.",
+        "Trusted: single bytecode-level reference stores / list.append are atomic under the GIL; no reflection or monkey-patching (checked); callers do not mutate package internals. Flow-insensitive points-to (two exceptions where the position of a use decides: a parameter re-bound at the top level of a function, a name re-bound inside `if NAME is None:`): sound for may-write, may over-approximate aliases. C16.5 (round 11): per-call data kept in `nonlocal` variables of a repository-defined decorator's frame and read back to answer is shared state of all callers of the decorated function.",
         "DESIGN.md section 3, C16",
     ),
     "C17": (
